@@ -8,8 +8,7 @@ _CBMC = ["--unwindset", "memcmp.0:17"]
 _UNWIND = [
     (r"StatusMask as std::iter::FromIterator", 14),   # DcpsStatusCondition::default(): 13 status kinds
     (r"overflowing_pow", 8),
-    (r"retain_mut", 5),                                  # Vec::retain over <= 3 changes (+ exit test + drop guard)
-    (r"c29_lifespan::(remove_stale|time_until|history_fixture)", 5),  # the harness's own loops over <= 3 changes
+    (r"retain_mut", 3),                                  # Vec::retain over 2 changes (+ exit test)
 ]
 
 for _pid in ("C30", "C29", "C33", "C27", "C28"):
